@@ -52,6 +52,30 @@ TECHNIQUE = ('Coq proofs about a hand-written executable model (convex-hull sema
              'Reach oracle on probe neutrons')
 
 IRREG_KEY = 'subbounds:irregular-after-horizontal-edge-cut'
+EXPLAIN = {
+    'float-interpolates-equal-wavelengths':
+        'the implementation\'s vertex lists are bit for bit those of the model of `_chop` that computes '
+        '(1-t)*w_i + t*w_j also on an edge with w_i == w_j (the text before notes/fixes/C11_regular.patch), not those of '
+        'the patched text that reuses w_i; the rounded value breaks the exact ties Subframe.is_regular tests',
+    'float-vertices': 'a frame of the implementation (distance, number / order / value of vertices) is not bit-identical '
+                      'to the binary64 model',
+    'float-is_regular': 'Subframe.is_regular() differs from the binary64 model on identical vertices',
+    'float-bounds': 'Frame.bounds() differs from the binary64 model',
+    'float-subbounds-values': 'Frame.subbounds() values differ from the binary64 model',
+    'float-subbounds-outcome': 'Frame.subbounds() returns / raises differently from the binary64 model',
+    'float-getitem': 'FrameSequence[distance] differs from the binary64 model',
+    'float-getitem-outcome': 'FrameSequence[distance] returns / raises differently from the model',
+    'float-model-raises': 'the model raises ValueError (chopper upstream of the frame) but the implementation does not',
+    'float-impl-raises': 'the implementation raises ValueError but the model does not',
+    'float-number-of-frames': 'the implementation\'s sequence has a different number of frames than the model',
+    'q-impl-vertex-outside-model': 'a vertex of the implementation lies outside the high-precision model\'s polygons '
+                                   '(one call applied to the implementation\'s own previous frame)',
+    'q-model-vertex-outside-impl': 'a vertex of the high-precision model lies outside the implementation\'s polygons',
+    'oracle-transmitted-neutron-not-in-any-subframe': 'a neutron that passes a window of every chopper applied so far '
+                                                      '(margin 1e-9) is in none of the implementation\'s subframes',
+    'oracle-blocked-neutron-inside-a-subframe': 'a neutron blocked by a chopper (margin 1e-9) lies inside a subframe of '
+                                                'the implementation',
+}
 
 
 # --------------------------------------------------------------------------- helpers
@@ -368,14 +392,14 @@ def correspondence(ctx):
               f'Definition MN : float := {cf(fh(mn))}.\nDefinition H : float := {cf(fh(h))}.\n')
     fails, errors = ctx.coq_eval_shards(
         header, terms, lambda k: 'Eval vm_compute in (report (map (check MN H) cases)).\n',
-        shard=10 if quick else 40)
+        shard=4 if quick else 40)
     for name, e in errors:
         ctx.violation('corr-shard-error', f'correspondence shard {name} did not evaluate: {e[:300]}',
                       {'shard': name, 'error': e}, found_input=False)
     for i, why in sorted(fails.items()):
         c, r = kept[i]
-        ctx.violation(why, f'case {c["id"]} ({c["shape"]}, {c["n_choppers"]} choppers): {why} — the implementation\'s frames '
-                      f'differ from the model / the Reach oracle',
+        text = EXPLAIN.get(why, 'the implementation\'s frames differ from the model / the Reach oracle')
+        ctx.violation(why, f'case {c["id"]} ({c["shape"]}, {c["n_choppers"]} choppers): {why} — {text}',
                       {'rect': c['rect'], 'program': r['program'], 'items': c['items'], 'reason': why,
                        'frames': r['frames'], 'kind': 'program'})
     # ---- the last sentence of the property evaluated on the implementation alone (no model involved):
